@@ -425,7 +425,19 @@ class Frame:
                 self.locals[st.name] = Opaque(f'def {st.name}')
         elif isinstance(st, ast.ClassDef):
             self.locals[st.name] = Opaque(f'def {st.name}')
-        elif isinstance(st, (ast.Global, ast.Nonlocal, ast.Import, ast.ImportFrom, ast.Delete, ast.Assert)):
+        elif isinstance(st, ast.Delete):
+            # `del xs[a:b]` / `del xs[k]` on an unknown container is an effect on it (recorded like a mutator call)
+            for t in st.targets:
+                if isinstance(t, ast.Subscript):
+                    base = self.eval(t.value)
+                    if isinstance(base, Opaque):
+                        idx = norm_src(t.slice)
+                        self.ev.events.append(('call', f'{base.tag}.__delitem__', [Opaque(idx)], {}, st, tuple(self.ev.ctx)))
+                        if self.ev.watch_calls:
+                            self.ev.calls.append((st, f'{base.tag}.__delitem__', [Opaque(idx)], {}))
+                        if isinstance(t.value, ast.Name):
+                            self.locals[t.value.id] = Opaque(base.tag + "'")
+        elif isinstance(st, (ast.Global, ast.Nonlocal, ast.Import, ast.ImportFrom, ast.Assert)):
             return
         else:
             raise AnalysisError(f'{self.fn.fq}: statement {type(st).__name__} not supported by the decision-table extractor')
@@ -447,7 +459,10 @@ class Frame:
         Evaluated exactly like the builtin spelling, so both give the same atom and the same effects.
         """
         body = [s for s in st.body if not (isinstance(s, ast.Expr) and isinstance(s.value, ast.Constant))]
-        if st.orelse or len(body) != 1 or not isinstance(body[0], ast.If) or body[0].orelse:
+        if len(body) != 1 or not isinstance(body[0], ast.If) or body[0].orelse:
+            return False
+        # `for ..: if P: break` + `else: <stmts>`: the else part runs iff nothing was found
+        if st.orelse and not (len(body[0].body) == 1 and isinstance(body[0].body[0], ast.Break)):
             return False
         test = body[0].test
         if not isinstance(test, (ast.Call, ast.Attribute, ast.Name)) and not (isinstance(test, ast.Compare) and len(test.ops) == 1):
@@ -479,6 +494,8 @@ class Frame:
                 self.locals[a.targets[0].id] = a.value.value
             if isinstance(acts[-1], ast.Return):
                 raise _Return(acts[-1].value.value if acts[-1].value is not None else None)
+        elif st.orelse:
+            self.block(st.orelse)
         return True
 
     def loop(self, st: ast.For | ast.While) -> None:
